@@ -74,7 +74,7 @@ PROPS = {
              assumptions=COMMON_ASSUME + ["heights above those listed in coverage.explanation are covered by the general lemmas plus label-mode runs only (C01_partial)"]),
  "C02": dict(tie=tie("XMSS_KEY", extra=["xmss_XMSSFastGenKeyPair"]), assumptions=COMMON_ASSUME),
  "C03": dict(allow_bv_decide=True, tie=tie("DIL_SIGN", "DIL_VERIFY", "DIL_PACK", "DIL_VEC", "DIL_POLY", "DIL_SAMPLE"), assumptions=COMMON_ASSUME + ["termination of the XOF-driven rejection loop is not provable; theorems are of the form 'if sign returns then …'"]),
- "C04": dict(oracle_ops=["x.verify"], tie=tie("XMSS_VERIFY", "XMSS_HASH", "XMSS_WOTS", "DESC"), assumptions=COMMON_ASSUME + ["that a flipped bit is rejected is a collision-resistance statement; it is covered by exhaustive single-bit-flip runs on the real code (tests, labelled as such)"]),
+ "C04": dict(extra_modules=["C04Craft"], oracle_ops=["x.verify"], tie=tie("XMSS_VERIFY", "XMSS_HASH", "XMSS_WOTS", "DESC"), assumptions=COMMON_ASSUME + ["that a flipped bit is rejected is a collision-resistance statement; it is covered by exhaustive single-bit-flip runs on the real code (tests, labelled as such)"]),
  "C05": dict(oracle_ops=["dl.verify", "dl.open", "dl.unpacksig"], tie=tie("DIL_VERIFY", "DIL_PACK", "DIL_POLY", "DIL_VEC", "DIL_SAMPLE"), allow_bv_decide=True, assumptions=COMMON_ASSUME),
  "C06": dict(oracle_ops=["xs.pk", "xs.sign", "x.verify"], tie=tie("XMSS_HASH", "XMSS_WOTS", "XMSS_BDS", "XMSS_KEY", "XMSS_VERIFY"), thorough_modules=["C01Thorough"], timeout={"quick": 1500, "thorough": 7200}, assumptions=COMMON_ASSUME),
  "C07": dict(oracle_ops=["dl.keypair", "dl.signsk", "dl.sign", "dl.new", "dl.rejuniform", "dl.rejeta", "dl.uniform", "dl.eta", "dl.gamma1", "dl.challenge"], tie=tie("DIL_SIGN", "DIL_SAMPLE", "DIL_VEC", "DIL_POLY", "DIL_PACK", "DIL_SCALAR"), assumptions=COMMON_ASSUME),
